@@ -2,11 +2,13 @@
 # seed_run.sh <ID> <PROPERTY> [more properties...]: copies the confirmed seeded change /tmp/mut/<ID>/out into /verif/seeded/<ID>/,
 # applies its patch to /repo, runs the property checks (quick tier), undoes the patch straight afterwards, and records what happened.
 ID=$1; shift
-S=/verif/seeded/$ID
+OUT=${SEED_OUT:-out}
+SID=$ID; [ "$OUT" = out2 ] && SID=$ID-2
+S=/verif/seeded/$SID
 mkdir -p $S
-cp /tmp/mut/$ID/out/patch.diff /tmp/mut/$ID/out/README.md $S/ 2>/dev/null
-cp /tmp/mut/$ID/out/demo.diff $S/ 2>/dev/null
-cp /tmp/mut/$ID/out/*.rs $S/ 2>/dev/null
+cp /tmp/mut/$ID/$OUT/patch.diff /tmp/mut/$ID/$OUT/README.md $S/ 2>/dev/null
+cp /tmp/mut/$ID/$OUT/demo.diff $S/ 2>/dev/null
+cp /tmp/mut/$ID/$OUT/*.rs $S/ 2>/dev/null
 cd /verif
 git -C /repo diff --quiet || { echo "/repo is not clean"; exit 2; }
 git -C /repo apply $S/patch.diff || { echo "patch does not apply to /repo"; exit 2; }
@@ -18,16 +20,17 @@ for P in "$@"; do
   V=$(grep -c "^VIOLATION" $S/check-$P.log)
   NF=$(grep "^VIOLATION" $S/check-$P.log | grep -c "no-failing-input-found")
   FIRST=$(grep -A1 "^VIOLATION" $S/check-$P.log | sed -n 2p | cut -c1-220)
-  echo "$ID on $P: exit=$RC violations=$V (without input: $NF) $FIRST"
+  echo "$SID on $P: exit=$RC violations=$V (without input: $NF) $FIRST"
   RES="$RES{\"property\":\"$P\",\"exit\":$RC,\"violation_lines\":$V,\"no_failing_input\":$NF},"
   R=$(grep "^VIOLATION" $S/check-$P.log | head -1 | sed 's/.*replay=\([^ ]*\).*/\1/')
   [ -n "$R" ] && [ -f "$R" ] && cp "$R" $S/replay-$P.json
 done
 git -C /repo checkout -- .
-python3 - "$ID" "$S" "[${RES%,}]" <<'PY'
+python3 - "$SID" "$S" "[${RES%,}]" "/tmp/mut/$ID/$OUT/meta.json" <<'PY'
 import json,sys,os
 ID,S,res=sys.argv[1],sys.argv[2],json.loads(sys.argv[3])
-m=json.load(open('/tmp/mut/%s/out/meta.json'%ID)) if os.path.exists('/tmp/mut/%s/out/meta.json'%ID) else {}
+mp=sys.argv[4]
+m=json.load(open(mp)) if os.path.exists(mp) else {}
 m.update({"id":ID,"breaks":m.get("property",ID),"confirmed":"patch keeps the 33 lib tests green (default and verif_hooks features); the demonstration fails with the patch and passes without it (tools/seed_verify.sh in a scratch worktree)",
           "ran":"git -C /repo apply patch.diff; ./check <property> --tier quick; git -C /repo checkout -- .","checks":res})
 json.dump(m,open(S+'/meta.json','w'),indent=1)
